@@ -400,8 +400,18 @@ size_t g_aoff; /* ghost: offset of the aliased source view inside the destinatio
 #    define DYN_FROM FROM_INSIDE_TO
 #endif
 
+/* case split of the (expensive) aliased unit: the two cases together cover the whole precondition */
+#if defined(VERIF_DYN_ONLY_GROW)
+#    define DYN_CASE __CPROVER_requires(DYN_GROWS(to, from))
+#elif defined(VERIF_DYN_ONLY_FIT)
+#    define DYN_CASE __CPROVER_requires(!DYN_GROWS(to, from))
+#else
+#    define DYN_CASE
+#endif
+
 static int s_aws_byte_buf_append_dynamic(struct aws_byte_buf *to, const struct aws_byte_cursor *from, bool clear_released_memory)
 APPEND_DYNAMIC_CONTRACT(DYN_FROM)
+DYN_CASE
 __CPROVER_requires(g_zero_on ==> clear_released_memory && g_rsize == to->capacity)
 __CPROVER_requires(g_expect_secure_on ==> clear_released_memory == g_expect_secure)
 ;
@@ -525,6 +535,360 @@ __CPROVER_ensures(RET == AWS_OP_SUCCESS ==> to->len == OLD(to->len) + from_and_u
 __CPROVER_ensures(RET != AWS_OP_SUCCESS ==> to->len == OLD(to->len) && from_and_update->ptr == OLD(from_and_update->ptr))
 __CPROVER_ensures(BUF_SHAPE_KEPT(to))
 ENS_PREFIX_KEPT(to)
+;
+
+/* ================================================================== second batch: the remaining functions of byte_buf.c */
+
+/* ghost description of a C string argument: g_slen is its length (position of the first NUL), stated for one arbitrary
+ * witness position g_sw ("no NUL before g_slen").  strlen() is replaced by the ASSUMED contract below (CBMC's library
+ * model is an unbounded loop); harnesses of functions that take a C string set g_slen/g_sw to arbitrary values. */
+size_t g_slen;
+size_t g_sw;
+#define CSTR_FACTS(s) (((const uint8_t *)(s))[g_slen] == 0 && (g_sw < g_slen ==> ((const uint8_t *)(s))[g_sw] != 0))
+#define CSTR_OK(s) (g_slen < VERIF_HUGE && __CPROVER_is_fresh((s), g_slen + 1) && CSTR_FACTS(s))
+
+size_t strlen(const char *s)
+__CPROVER_requires(g_slen < VERIF_HUGE && __CPROVER_r_ok(s, g_slen + 1) && CSTR_FACTS(s))
+__CPROVER_assigns()
+__CPROVER_ensures(RET == g_slen)
+;
+
+/* specification of the two lookup tables of byte_buf.c (checked against the real tables for all 256 values by the
+ * units table_tolower / table_hex_to_num) */
+#define SPEC_ISHEX(c) (((c) >= '0' && (c) <= '9') || ((c) >= 'a' && (c) <= 'f') || ((c) >= 'A' && (c) <= 'F'))
+#define SPEC_HEXVAL(c)                                                                                                 \
+    ((uint8_t)(((c) >= '0' && (c) <= '9') ? (c) - '0'                                                                  \
+               : ((c) >= 'a' && (c) <= 'f') ? (c) - 'a' + 10                                                           \
+               : ((c) >= 'A' && (c) <= 'F') ? (c) - 'A' + 10 : 255))
+#define SPEC_LOWER(c) ((uint8_t)(((c) >= 'A' && (c) <= 'Z') ? (c) + ('a' - 'A') : (c)))
+
+/* ------------------------------------------------------------------ views over caller memory (no byte is touched) */
+
+struct aws_byte_buf aws_byte_buf_from_array(const void *bytes, size_t len)
+__CPROVER_requires(len == 0 || __CPROVER_is_fresh(bytes, len))
+__CPROVER_assigns()
+__CPROVER_ensures(RET.len == len && RET.capacity == len && RET.allocator == NULL)
+__CPROVER_ensures(len == 0 ? RET.buffer == NULL : PEQ(RET.buffer, (uint8_t *)bytes))
+;
+
+struct aws_byte_buf aws_byte_buf_from_empty_array(const void *bytes, size_t capacity)
+__CPROVER_requires(capacity == 0 || __CPROVER_is_fresh(bytes, capacity))
+__CPROVER_assigns()
+__CPROVER_ensures(RET.len == 0 && RET.capacity == capacity && RET.allocator == NULL)
+__CPROVER_ensures(capacity == 0 ? RET.buffer == NULL : PEQ(RET.buffer, (uint8_t *)bytes))
+;
+
+struct aws_byte_buf aws_byte_buf_from_c_str(const char *c_str)
+__CPROVER_requires(c_str == NULL || CSTR_OK(c_str))
+__CPROVER_assigns()
+__CPROVER_ensures(RET.len == (c_str == NULL ? 0 : g_slen) && RET.capacity == RET.len && RET.allocator == NULL)
+__CPROVER_ensures(RET.len == 0 ? RET.buffer == NULL : PEQ(RET.buffer, (uint8_t *)c_str))
+;
+
+struct aws_byte_cursor aws_byte_cursor_from_buf(const struct aws_byte_buf *const buf)
+__CPROVER_requires(BUF_OK(buf))
+__CPROVER_assigns()
+__CPROVER_ensures(RET.len == buf->len && PEQ(RET.ptr, buf->buffer))
+;
+
+struct aws_byte_cursor aws_byte_cursor_from_c_str(const char *c_str)
+__CPROVER_requires(c_str == NULL || CSTR_OK(c_str))
+__CPROVER_assigns()
+__CPROVER_ensures(RET.len == (c_str == NULL ? 0 : g_slen) && PEQ(RET.ptr, (uint8_t *)c_str))
+;
+
+struct aws_byte_cursor aws_byte_cursor_from_array(const void *const bytes, const size_t len)
+__CPROVER_requires((len == 0 && bytes == NULL) || __CPROVER_is_fresh(bytes, len))
+__CPROVER_assigns()
+__CPROVER_ensures(RET.len == len && (len == 0 ? RET.ptr == (uint8_t *)bytes : PEQ(RET.ptr, (uint8_t *)bytes)))
+;
+
+/* ------------------------------------------------------------------ read_and_fill_buffer / read_hex_u8 / write_to_capacity */
+
+/* fills the WHOLE capacity of dest from the cursor (documented: "reads as many bytes from cursor as size of buffer"):
+ * the frame is [0, capacity) of dest, all or nothing. */
+bool aws_byte_cursor_read_and_fill_buffer(struct aws_byte_cursor *AWS_RESTRICT cur, struct aws_byte_buf *AWS_RESTRICT dest)
+__CPROVER_requires(CUR_OK(cur))
+__CPROVER_requires(BUF_OK(dest))
+REQ_WITNESS_CUR(cur)
+__CPROVER_assigns(dest->capacity == 0 || READ_OK(cur, dest->capacity) : dest->len)
+__CPROVER_assigns(dest->capacity > 0 && READ_OK(cur, dest->capacity) : cur->ptr, cur->len, __CPROVER_object_upto(dest->buffer, dest->capacity))
+__CPROVER_ensures(RET == (dest->capacity == 0 || ADV_OK_OLD(cur, dest->capacity)))
+__CPROVER_ensures(RET ==> dest->len == dest->capacity && cur->len == OLD(cur->len) - dest->capacity &&
+                  (dest->capacity > 0 ==> PEQ(cur->ptr, OLD(cur->ptr) + dest->capacity)))
+__CPROVER_ensures(!RET ==> dest->len == OLD(dest->len) && cur->len == OLD(cur->len) && PEQ(cur->ptr, OLD(cur->ptr)))
+__CPROVER_ensures(BUF_SHAPE_KEPT(dest))
+__CPROVER_ensures(g_on && RET && g_j < dest->capacity ==> dest->buffer[g_j] == g_src)
+;
+
+#define HEX_OK(c) ((c)->len >= 2 && SPEC_ISHEX((c)->ptr[0]) && SPEC_ISHEX((c)->ptr[1]))
+bool aws_byte_cursor_read_hex_u8(struct aws_byte_cursor *cur, uint8_t *var)
+__CPROVER_requires(CUR_OK(cur))
+__CPROVER_requires(__CPROVER_is_fresh(var, sizeof(*var)))
+__CPROVER_assigns(HEX_OK(cur) : *var, cur->ptr, cur->len)
+__CPROVER_ensures(RET == (OLD(cur->len) >= 2 && SPEC_ISHEX(OLD(cur->ptr)[0]) && SPEC_ISHEX(OLD(cur->ptr)[1])))
+__CPROVER_ensures(RET ==> *var == (uint8_t)((SPEC_HEXVAL(OLD(cur->ptr)[0]) << 4) | SPEC_HEXVAL(OLD(cur->ptr)[1])))
+__CPROVER_ensures(RET ==> cur->len == OLD(cur->len) - 2 && PEQ(cur->ptr, OLD(cur->ptr) + 2))
+__CPROVER_ensures(!RET ==> *var == OLD(*var) && cur->len == OLD(cur->len) && PEQ(cur->ptr, OLD(cur->ptr)))
+;
+
+/* writes min(space left, cursor length) bytes, advances the cursor by as much and returns the view that was written */
+#define WTC_SPACE(b) ((b)->capacity - (b)->len)
+#define WTC_N(b, c) (WTC_SPACE(b) < (c)->len ? WTC_SPACE(b) : (c)->len)
+#define WTC_N_OLD(b, c) (OLD((b)->capacity) - OLD((b)->len) < OLD((c)->len) ? OLD((b)->capacity) - OLD((b)->len) : OLD((c)->len))
+struct aws_byte_cursor aws_byte_buf_write_to_capacity(struct aws_byte_buf *buf, struct aws_byte_cursor *advancing_cursor)
+__CPROVER_requires(BUF_OK(buf))
+__CPROVER_requires(CUR_OK(advancing_cursor))
+REQ_WITNESS_BUF(buf)
+REQ_WITNESS_CUR(advancing_cursor)
+__CPROVER_assigns(advancing_cursor->ptr, advancing_cursor->len)
+__CPROVER_assigns(WTC_SPACE(buf) > 0 && advancing_cursor->len > 0 : buf->len)
+__CPROVER_assigns(WTC_SPACE(buf) > 0 && advancing_cursor->len > 0 && WTC_SPACE(buf) < advancing_cursor->len : __CPROVER_object_upto(buf->buffer + buf->len, WTC_SPACE(buf)))
+__CPROVER_assigns(WTC_SPACE(buf) > 0 && advancing_cursor->len > 0 && WTC_SPACE(buf) >= advancing_cursor->len : __CPROVER_object_upto(buf->buffer + buf->len, advancing_cursor->len))
+__CPROVER_ensures(RET.len == WTC_N_OLD(buf, advancing_cursor) && PEQ(RET.ptr, OLD(advancing_cursor->ptr)))
+__CPROVER_ensures(advancing_cursor->len == OLD(advancing_cursor->len) - RET.len)
+__CPROVER_ensures(PEQ(advancing_cursor->ptr, (OLD(advancing_cursor->ptr) == NULL ? NULL : OLD(advancing_cursor->ptr) + RET.len)))
+__CPROVER_ensures(buf->len == OLD(buf->len) + RET.len)
+__CPROVER_ensures(BUF_SHAPE_KEPT(buf))
+__CPROVER_ensures(g_on && g_j < RET.len ==> buf->buffer[OLD(buf->len) + g_j] == g_src)
+ENS_PREFIX_KEPT(buf)
+;
+
+/* ------------------------------------------------------------------ ASSUMED contracts of memcmp / memchr
+ * (CBMC's library models are unbounded loops).  The existential part of their specification ("there is a first
+ * differing / matching byte") is Skolemised: the replaced call reports the position in the ghost g_mm, the universal
+ * part ("all bytes before it are equal / differ from c") is stated for the arbitrary witness g_j. */
+size_t g_mm;
+#define U8P(p) ((const uint8_t *)(p))
+int memcmp(const void *s1, const void *s2, size_t n)
+__CPROVER_requires(s1 != NULL && s2 != NULL && (n == 0 || (__CPROVER_r_ok(s1, n) && __CPROVER_r_ok(s2, n))))
+__CPROVER_assigns(g_mm)
+__CPROVER_ensures(RET == 0 ==> (g_j < n ==> U8P(s1)[g_j] == U8P(s2)[g_j]))
+__CPROVER_ensures(RET != 0 ==> g_mm < n && U8P(s1)[g_mm] != U8P(s2)[g_mm] && ((RET < 0) == (U8P(s1)[g_mm] < U8P(s2)[g_mm])) &&
+                  (g_j < g_mm ==> U8P(s1)[g_j] == U8P(s2)[g_j]))
+;
+void *memchr(const void *s, int c, size_t n)
+__CPROVER_requires(n == 0 || __CPROVER_r_ok(s, n))
+__CPROVER_assigns(g_mm)
+__CPROVER_ensures(RET == NULL ==> (g_j < n ==> U8P(s)[g_j] != (uint8_t)c))
+__CPROVER_ensures(RET != NULL ==> g_mm < n && PEQ(RET, (void *)(U8P(s) + g_mm)) && U8P(s)[g_mm] == (uint8_t)c &&
+                  (g_j < g_mm ==> U8P(s)[g_j] != (uint8_t)c))
+;
+
+/* ------------------------------------------------------------------ user predicates: an arbitrary pure function of the byte,
+ * modelled by the ghost table g_pred (DFCC leaves it nondeterministic: every predicate) */
+bool g_pred[256];
+bool byte_pred_contract(uint8_t value)
+__CPROVER_requires(1)
+__CPROVER_assigns()
+__CPROVER_ensures(RET == g_pred[value])
+;
+#define PRED_OK(p) __CPROVER_obeys_contract((p), byte_pred_contract)
+#define POFF(p) __CPROVER_POINTER_OFFSET(p)
+
+/* result: same start, the longest prefix whose last byte does not satisfy the predicate */
+struct aws_byte_cursor aws_byte_cursor_right_trim_pred(const struct aws_byte_cursor *source, aws_byte_predicate_fn *predicate)
+__CPROVER_requires(CUR_OK(source))
+__CPROVER_requires(PRED_OK(predicate))
+__CPROVER_assigns()
+__CPROVER_ensures(RET.len <= source->len && PEQ(RET.ptr, source->ptr))
+__CPROVER_ensures(RET.len > 0 ==> !g_pred[source->ptr[RET.len - 1]])
+__CPROVER_ensures(g_j >= RET.len && g_j < source->len ==> g_pred[source->ptr[g_j]])
+;
+
+/* result: same end, the longest suffix whose first byte does not satisfy the predicate */
+struct aws_byte_cursor aws_byte_cursor_left_trim_pred(const struct aws_byte_cursor *source, aws_byte_predicate_fn *predicate)
+__CPROVER_requires(CUR_OK(source))
+__CPROVER_requires(PRED_OK(predicate))
+__CPROVER_assigns()
+__CPROVER_ensures(RET.len <= source->len)
+__CPROVER_ensures(source->len == 0 ? PEQ(RET.ptr, source->ptr) : PEQ(RET.ptr, source->ptr + (source->len - RET.len)))
+__CPROVER_ensures(RET.len > 0 ==> !g_pred[source->ptr[source->len - RET.len]])
+__CPROVER_ensures(g_j < source->len - RET.len ==> g_pred[source->ptr[g_j]])
+;
+
+/* result: a sub-view [o, o + RET.len) of the source; everything before o and after o + RET.len satisfies the predicate,
+ * the first and the last byte of a non-empty result do not.  The bytes after the result are indexed from RET.ptr. */
+#define TRIM_O (POFF(RET.ptr) - POFF(source->ptr))
+struct aws_byte_cursor aws_byte_cursor_trim_pred(const struct aws_byte_cursor *source, aws_byte_predicate_fn *predicate)
+__CPROVER_requires(CUR_OK(source))
+__CPROVER_requires(PRED_OK(predicate))
+__CPROVER_assigns()
+__CPROVER_ensures(RET.len <= source->len)
+__CPROVER_ensures(source->len == 0 ==> PEQ(RET.ptr, source->ptr))
+__CPROVER_ensures(source->len > 0 ==> __CPROVER_same_object(RET.ptr, source->ptr) && POFF(RET.ptr) >= POFF(source->ptr) &&
+                  TRIM_O <= source->len && RET.len <= source->len - TRIM_O)
+__CPROVER_ensures(RET.len > 0 ==> !g_pred[RET.ptr[0]] && !g_pred[RET.ptr[RET.len - 1]])
+__CPROVER_ensures(source->len > 0 && g_j < TRIM_O ==> g_pred[source->ptr[g_j]])
+__CPROVER_ensures(source->len > 0 && g_j >= RET.len && g_j < source->len - TRIM_O ==> g_pred[RET.ptr[g_j]])
+;
+
+/* true  ==> every byte satisfies the predicate (equivalently: one byte that does not ==> false).
+ * "false ==> some byte does not satisfy it" needs an existential and is not stated (see units.json not_decided). */
+bool aws_byte_cursor_satisfies_pred(const struct aws_byte_cursor *source, aws_byte_predicate_fn *predicate)
+__CPROVER_requires(CUR_OK(source))
+__CPROVER_requires(PRED_OK(predicate))
+__CPROVER_assigns()
+__CPROVER_ensures(RET ==> (g_j < source->len ==> g_pred[source->ptr[g_j]]))
+__CPROVER_ensures(source->len == 0 ==> RET)
+;
+
+/* ------------------------------------------------------------------ equality / comparison
+ * Shape of the postconditions (no quantifiers):
+ *   true  ==> lengths equal and byte g_j (arbitrary witness) equal            [= "one differing byte ==> false"]
+ *   false ==> lengths differ, or the byte at the reported position g_mm differs   (memcmp-based functions only: the
+ *             position comes out of the assumed memcmp contract; for the hand-written loops the existential
+ *             "false ==> some byte differs" is NOT stated, see units.json not_decided and the bounded units eq_*_bounded)
+ */
+#define ARR_OK(p, n) (((n) == 0 && (p) == NULL) || __CPROVER_is_fresh((p), (n)))
+
+bool aws_array_eq(const void *const array_a, const size_t len_a, const void *const array_b, const size_t len_b)
+__CPROVER_requires(ARR_OK(array_a, len_a))
+__CPROVER_requires(ARR_OK(array_b, len_b))
+__CPROVER_assigns(g_mm)
+__CPROVER_ensures(RET ==> len_a == len_b && (g_j < len_a ==> U8P(array_a)[g_j] == U8P(array_b)[g_j]))
+__CPROVER_ensures(!RET ==> len_a != len_b || (g_mm < len_a && U8P(array_a)[g_mm] != U8P(array_b)[g_mm]))
+;
+
+bool aws_array_eq_ignore_case(const void *const array_a, const size_t len_a, const void *const array_b, const size_t len_b)
+__CPROVER_requires(ARR_OK(array_a, len_a))
+__CPROVER_requires(ARR_OK(array_b, len_b))
+__CPROVER_assigns()
+__CPROVER_ensures(RET ==> len_a == len_b && (g_j < len_a ==> SPEC_LOWER(U8P(array_a)[g_j]) == SPEC_LOWER(U8P(array_b)[g_j])))
+__CPROVER_ensures(len_a == 0 && len_b == 0 ==> RET)
+__CPROVER_ensures(len_a == len_b && len_a > 0 && SPEC_LOWER(U8P(array_a)[0]) != SPEC_LOWER(U8P(array_b)[0]) ==> !RET)
+;
+
+/* c_str is a C string of length g_slen.  true ==> array_len == g_slen and every byte equal.  "array_len >= g_slen" is
+ * obtained by instantiating the witness g_sw (position without NUL) with array_len. */
+bool aws_array_eq_c_str(const void *const array, const size_t array_len, const char *const c_str)
+__CPROVER_requires(ARR_OK(array, array_len))
+__CPROVER_requires(CSTR_OK(c_str))
+__CPROVER_assigns()
+__CPROVER_ensures(RET ==> array_len <= g_slen && !(g_sw == array_len && array_len < g_slen))
+__CPROVER_ensures(RET ==> (g_j < array_len ==> U8P(array)[g_j] == U8P(c_str)[g_j]))
+__CPROVER_ensures(array_len == 0 ==> RET == (g_slen == 0))
+;
+
+bool aws_array_eq_c_str_ignore_case(const void *const array, const size_t array_len, const char *const c_str)
+__CPROVER_requires(ARR_OK(array, array_len))
+__CPROVER_requires(CSTR_OK(c_str))
+__CPROVER_assigns()
+__CPROVER_ensures(RET ==> array_len <= g_slen && !(g_sw == array_len && array_len < g_slen))
+__CPROVER_ensures(RET ==> (g_j < array_len ==> SPEC_LOWER(U8P(array)[g_j]) == SPEC_LOWER(U8P(c_str)[g_j])))
+__CPROVER_ensures(array_len == 0 ==> RET == (g_slen == 0))
+;
+
+#define EQ_EXACT(pa, la, pb, lb)                                                                                       \
+    __CPROVER_assigns(g_mm)                                                                                            \
+    __CPROVER_ensures(RET ==> (la) == (lb) && (g_j < (la) ==> (pa)[g_j] == (pb)[g_j]))                                  \
+    __CPROVER_ensures(!RET ==> (la) != (lb) || (g_mm < (la) && (pa)[g_mm] != (pb)[g_mm]))
+#define EQ_NOCASE(pa, la, pb, lb)                                                                                      \
+    __CPROVER_assigns()                                                                                                \
+    __CPROVER_ensures(RET ==> (la) == (lb) && (g_j < (la) ==> SPEC_LOWER((pa)[g_j]) == SPEC_LOWER((pb)[g_j])))          \
+    __CPROVER_ensures((la) == 0 && (lb) == 0 ==> RET)
+#define EQ_CSTR(pa, la, FOLD)                                                                                          \
+    __CPROVER_requires(CSTR_OK(c_str))                                                                                 \
+    __CPROVER_assigns()                                                                                                \
+    __CPROVER_ensures(RET ==> (la) <= g_slen && !(g_sw == (la) && (la) < g_slen))                                      \
+    __CPROVER_ensures(RET ==> (g_j < (la) ==> FOLD((pa)[g_j]) == FOLD(U8P(c_str)[g_j])))                               \
+    __CPROVER_ensures((la) == 0 ==> RET == (g_slen == 0))
+#define SPEC_ID(c) (c)
+
+bool aws_byte_cursor_eq(const struct aws_byte_cursor *a, const struct aws_byte_cursor *b)
+__CPROVER_requires(CUR_OK(a) && CUR_OK(b))
+EQ_EXACT(a->ptr, a->len, b->ptr, b->len)
+;
+bool aws_byte_cursor_eq_ignore_case(const struct aws_byte_cursor *a, const struct aws_byte_cursor *b)
+__CPROVER_requires(CUR_OK(a) && CUR_OK(b))
+EQ_NOCASE(a->ptr, a->len, b->ptr, b->len)
+;
+bool aws_byte_buf_eq(const struct aws_byte_buf *const a, const struct aws_byte_buf *const b)
+__CPROVER_requires(BUF_OK(a) && BUF_OK(b))
+EQ_EXACT(a->buffer, a->len, b->buffer, b->len)
+;
+bool aws_byte_buf_eq_ignore_case(const struct aws_byte_buf *const a, const struct aws_byte_buf *const b)
+__CPROVER_requires(BUF_OK(a) && BUF_OK(b))
+EQ_NOCASE(a->buffer, a->len, b->buffer, b->len)
+;
+bool aws_byte_buf_eq_c_str(const struct aws_byte_buf *const buf, const char *const c_str)
+__CPROVER_requires(BUF_OK(buf))
+EQ_CSTR(buf->buffer, buf->len, SPEC_ID)
+;
+bool aws_byte_buf_eq_c_str_ignore_case(const struct aws_byte_buf *const buf, const char *const c_str)
+__CPROVER_requires(BUF_OK(buf))
+EQ_CSTR(buf->buffer, buf->len, SPEC_LOWER)
+;
+bool aws_byte_cursor_eq_byte_buf(const struct aws_byte_cursor *const a, const struct aws_byte_buf *const b)
+__CPROVER_requires(CUR_OK(a) && BUF_OK(b))
+EQ_EXACT(a->ptr, a->len, b->buffer, b->len)
+;
+bool aws_byte_cursor_eq_byte_buf_ignore_case(const struct aws_byte_cursor *const a, const struct aws_byte_buf *const b)
+__CPROVER_requires(CUR_OK(a) && BUF_OK(b))
+EQ_NOCASE(a->ptr, a->len, b->buffer, b->len)
+;
+bool aws_byte_cursor_eq_c_str(const struct aws_byte_cursor *const cursor, const char *const c_str)
+__CPROVER_requires(CUR_OK(cursor))
+EQ_CSTR(cursor->ptr, cursor->len, SPEC_ID)
+;
+bool aws_byte_cursor_eq_c_str_ignore_case(const struct aws_byte_cursor *const cursor, const char *const c_str)
+__CPROVER_requires(CUR_OK(cursor))
+EQ_CSTR(cursor->ptr, cursor->len, SPEC_LOWER)
+;
+
+bool aws_byte_cursor_starts_with(const struct aws_byte_cursor *input, const struct aws_byte_cursor *prefix)
+__CPROVER_requires(CUR_OK(input) && CUR_OK(prefix))
+__CPROVER_assigns(g_mm)
+__CPROVER_ensures(RET ==> prefix->len <= input->len && (g_j < prefix->len ==> input->ptr[g_j] == prefix->ptr[g_j]))
+__CPROVER_ensures(!RET ==> prefix->len > input->len || (g_mm < prefix->len && input->ptr[g_mm] != prefix->ptr[g_mm]))
+;
+bool aws_byte_cursor_starts_with_ignore_case(const struct aws_byte_cursor *input, const struct aws_byte_cursor *prefix)
+__CPROVER_requires(CUR_OK(input) && CUR_OK(prefix))
+__CPROVER_assigns()
+__CPROVER_ensures(RET ==> prefix->len <= input->len && (g_j < prefix->len ==> SPEC_LOWER(input->ptr[g_j]) == SPEC_LOWER(prefix->ptr[g_j])))
+__CPROVER_ensures(prefix->len == 0 ==> RET)
+;
+
+/* memcmp order, then the shorter one first.  0 <==> equal; the sign follows the first differing byte (position g_mm
+ * reported by the assumed memcmp contract) or, when one is a prefix of the other, the lengths. */
+#define CL_MIN (lhs->len < rhs->len ? lhs->len : rhs->len)
+int aws_byte_cursor_compare_lexical(const struct aws_byte_cursor *lhs, const struct aws_byte_cursor *rhs)
+__CPROVER_requires(__CPROVER_is_fresh(lhs, sizeof(*lhs)) && __CPROVER_is_fresh(lhs->ptr, lhs->len))
+__CPROVER_requires(__CPROVER_is_fresh(rhs, sizeof(*rhs)) && __CPROVER_is_fresh(rhs->ptr, rhs->len))
+__CPROVER_assigns(g_mm)
+__CPROVER_ensures(RET == 0 ==> lhs->len == rhs->len && (g_j < lhs->len ==> lhs->ptr[g_j] == rhs->ptr[g_j]))
+__CPROVER_ensures(RET != 0 ==>
+    (g_mm < CL_MIN && lhs->ptr[g_mm] != rhs->ptr[g_mm] && ((RET < 0) == (lhs->ptr[g_mm] < rhs->ptr[g_mm])) &&
+     (g_j < g_mm ==> lhs->ptr[g_j] == rhs->ptr[g_j])) ||
+    (lhs->len != rhs->len && ((RET < 0) == (lhs->len < rhs->len)) && (RET == -1 || RET == 1) &&
+     (g_j < CL_MIN ==> lhs->ptr[g_j] == rhs->ptr[g_j])))
+;
+
+/* order of the bytes mapped through lookup_table.  0 ==> equal lengths and every mapped byte equal; -1/0/1 only; the
+ * cases decided by an empty side or by the first byte are exact.  "sign follows the FIRST differing byte" in general
+ * needs an existential and is not stated. */
+int aws_byte_cursor_compare_lookup(const struct aws_byte_cursor *lhs, const struct aws_byte_cursor *rhs, const uint8_t *lookup_table)
+__CPROVER_requires(CUR_OK(lhs) && CUR_OK(rhs))
+__CPROVER_requires(__CPROVER_is_fresh(lookup_table, 256))
+__CPROVER_assigns()
+__CPROVER_ensures(RET == -1 || RET == 0 || RET == 1)
+__CPROVER_ensures(RET == 0 ==> lhs->len == rhs->len && (g_j < lhs->len ==> lookup_table[lhs->ptr[g_j]] == lookup_table[rhs->ptr[g_j]]))
+__CPROVER_ensures(lhs->len == 0 ==> RET == (rhs->len == 0 ? 0 : -1))
+__CPROVER_ensures(rhs->len == 0 && lhs->len > 0 ==> RET == 1)
+__CPROVER_ensures(lhs->len > 0 && rhs->len > 0 && lookup_table[lhs->ptr[0]] != lookup_table[rhs->ptr[0]] ==>
+                  RET == (lookup_table[lhs->ptr[0]] < lookup_table[rhs->ptr[0]] ? -1 : 1))
+;
+
+/* memory safety and frame only */
+uint64_t aws_hash_array_ignore_case(const void *array, const size_t len)
+__CPROVER_requires(ARR_OK(array, len))
+__CPROVER_assigns()
+__CPROVER_ensures(len == 0 ==> RET == 0xcbf29ce484222325ULL)
+;
+uint64_t aws_hash_byte_cursor_ptr_ignore_case(const void *item)
+__CPROVER_requires(CUR_OK((const struct aws_byte_cursor *)item))
+__CPROVER_assigns()
+__CPROVER_ensures(1)
 ;
 
 #endif
